@@ -36,13 +36,17 @@ def placeMarket (s : KState) (prec : Nat) (ratio : Int) (dir : Dir) (amount expi
   | none => none
   | some lp => some (placeAt s dir (marketPrice prec dir lp ratio) amount expireAt)
 
-/-- the first loop of `MMOrderTicks`: the prices of the ticks before the last one (`i = from … n-1`), consecutive duplicates dropped -/
+/-- the price of step `i` of the ladder: `minPrice + gap·i` fitted down (buy), `maxPrice − gap·i` fitted up (sell) -/
+def mmStepPrice (dir : Dir) (minP maxP gap : Int) (prec i : Nat) : Int :=
+  match dir with
+  | .buy => priceToDownTick (minP + Dec.mulInt gap i) prec
+  | .sell => priceToUpTick (maxP - Dec.mulInt gap i) prec
+
+/-- the first loop of `MMOrderTicks`: the prices of the ticks before the last one (steps `i, i+1, …`), consecutive duplicates dropped -/
 def mmTickPrices (dir : Dir) (minP maxP gap : Int) (prec : Nat) : Nat → Nat → Option Int → List Int
   | 0, _, _ => []
   | fuel+1, i, prev =>
-    let p := match dir with
-      | .buy => priceToDownTick (minP + Dec.mulInt gap i) prec
-      | .sell => priceToUpTick (maxP - Dec.mulInt gap i) prec
+    let p := mmStepPrice dir minP maxP gap prec i
     if prev = some p then mmTickPrices dir minP maxP gap prec fuel (i + 1) prev
     else p :: mmTickPrices dir minP maxP gap prec fuel (i + 1) (some p)
 
@@ -78,6 +82,11 @@ def placeTicks (s : KState) (dir : Dir) (expireAt : Int) : List (Int × Int) →
     let (s2, ids) := placeTicks s1 dir expireAt rest
     (s2, so.id :: ids)
 
+/-- the tick orders of one side of an MM order (`(minPrice, maxPrice, amount)` when the side's amount is positive) -/
+def placeSide (s : KState) (dir : Dir) (expireAt : Int) (maxNumTicks prec : Nat) : Option (Int × Int × Int) → KState × List Nat
+  | some (mn, mx, amt) => placeTicks s dir expireAt (mmOrderTicks dir mn mx amt maxNumTicks prec)
+  | none => (s, [])
+
 /-- `MMOrder` after its validation: `buy` / `sell` = `(minPrice, maxPrice, amount)` of the side when its amount is positive -/
 def placeMM (st : MState) (prec maxNumTicks owner : Nat) (buy sell : Option (Int × Int × Int)) (expireAt : Int) :
     Option MState :=
@@ -85,13 +94,9 @@ def placeMM (st : MState) (prec maxNumTicks owner : Nat) (buy sell : Option (Int
   match cancelMM st.k prev with
   | none => none
   | some s0 =>
-    let (s1, ids1) := match buy with
-      | some (mn, mx, amt) => placeTicks s0 .buy expireAt (mmOrderTicks .buy mn mx amt maxNumTicks prec)
-      | none => (s0, [])
-    let (s2, ids2) := match sell with
-      | some (mn, mx, amt) => placeTicks s1 .sell expireAt (mmOrderTicks .sell mn mx amt maxNumTicks prec)
-      | none => (s1, [])
-    some { k := s2, mmIndex := (owner, ids1 ++ ids2) :: st.mmIndex.filter (fun x => x.1 != owner) }
+    let r1 := placeSide s0 .buy expireAt maxNumTicks prec buy
+    let r2 := placeSide r1.1 .sell expireAt maxNumTicks prec sell
+    some { k := r2.1, mmIndex := (owner, r1.2 ++ r2.2) :: st.mmIndex.filter (fun x => x.1 != owner) }
 
 /-! ### messages and runs -/
 
